@@ -77,7 +77,7 @@ func (x *e1) setupPooled() {
 	x.lis = x.net.NewListener("lis0")
 	x.rt.Spawn("srv", func() {
 		err := srv.Serve(x.srvCtx, x.lis)
-		x.serveDone, x.serveErr, x.serveStep = true, err, x.d.Step
+		x.serveDone, x.serveErr, x.serveStep, x.serveSim = true, err, x.d.Step, x.d.SimTime
 		x.d.Record(taskName(), "serve-return", errStr(err))
 	})
 
